@@ -5,6 +5,9 @@ Specification: spec/ConfigStore.tla - (1) Pad / Unpad exactly as written, on byt
 of the protected fields with the block cipher as an abstract bijection per key; (3) filepath.Join + safeJoinPath +
 FullNamespacePath on sequences of path segments, with the property "not rejected => inside the storage root".
 ConfigStore_gen.tla enumerates the cases with the specification's expected outcome.
+spec/ConfigSync.tla - the proxy side: Sync (persist what the coordinator holds, return it decrypted), LoadLocal (the local copy
+alone), LoadCoord, with the round-trip property per load; bound to the real SyncNamespaces / loadNamespacesFromClient /
+LoadDecryptNamespaces of proxy/server.
 Binding: G on the real Namespace.Verify/Encrypt/Encode -> Store.UpdateNamespace -> LoadNamespace over an in-memory
 client, the LocalClient and the file client; path confinement observed by walking a scratch sandbox around the
 LocalClient's storage root before and after every operation.
@@ -26,7 +29,9 @@ MANIFEST = {
                 "empty, absolute, '..a', blanks, forbidden and unusual characters, over-long) and 4 coordinator-root classes "
                 "that the path the local client resolves lies inside its storage root or is refused (before fix 894f0d4 TLC "
                 "found the escape for names resolving to the root itself; the stored cases keep watching it).  Every enumerated case carries the specification's expected "
-                "outcome and is replayed on the real Verify/Encrypt/Encode/Store/LocalClient/file-client code.",
+                "outcome and is replayed on the real Verify/Encrypt/Encode/Store/LocalClient/file-client code.  All sequences of "
+                "save / sync / load-from-local-copy / load-from-coordinator (control-plane and proxy key classes) are model "
+                "checked and replayed on the real SyncNamespaces and the manager's fall-back to the local copy.",
         "design_ref": "DESIGN.md section 5 C33, section 4.1 ConfigStore",
     },
     "level_note": "AES itself is an abstract function (a bijection on blocks per key) in the specification; the harness "
@@ -55,6 +60,23 @@ CHECK_DEADLOCK FALSE
 """
 SEGS_Q = ["a", "b", "..", ".", "", "..a", "a b", "<x", "LONG"]
 SEGS_T = SEGS_Q + ["ü", "a\\\\b", "...", "q?"]
+SYNC_CFG = """SPECIFICATION %(spec)s
+CONSTANTS
+  BS = 4
+  Bytes = {0, 1}
+  MaxLen = 1
+  Segs = {"a"}
+  MaxSegs = 1
+  Prefixes = {"none"}
+  SaveKeys = {"k16", "k32"}
+  ProxyKeys = {"k16", "k32", "k24"}
+  SyncClasses = %(classes)s
+  MaxVer = %(maxver)d
+%(extra)s
+INVARIANTS %(inv)s
+CHECK_DEADLOCK FALSE
+"""
+SYNC_HARNESS = ["proxy/server/configsync_test.go"]
 HARNESS = ["models/configstore_test.go"]
 PKG = "models"
 RUN = "^TestVerifConfigStore$"
@@ -84,18 +106,21 @@ def gen(ctx, kind, segs, maxsegs):
     return [norm(c) for c in r.cases] if kind == "path" else r.cases
 
 
-def replay(ctx, cases, label):
+def replay(ctx, cases, label, pkg=PKG, harness=None, run=RUN):
     scratch = ctx.path("sandbox")
     os.makedirs(scratch, exist_ok=True)
     for c in cases:
         c.setdefault("seed", ctx.seed)
-    res, summ, out = ctx.harness(PKG, HARNESS, RUN, cases, env={"VERIF_SCRATCH": scratch}, timeout=2400)
+    res, summ, out = ctx.harness(pkg, harness or HARNESS, run, cases, env={"VERIF_SCRATCH": scratch}, timeout=2400)
     K.require_counts(summ, len(cases), label)
     K.report(ctx, res, wrap=lambda obs: {"kind": "case", "case": obs})
     ctx.cov["evaluations"] += summ["cases"]
     ctx.cov["traces_validated_against_impl"] += summ["cases"]
     ctx.cov.setdefault("operations_on_real_code", 0)
     ctx.cov["operations_on_real_code"] += summ["operations"]
+    if "syncs" in summ:
+        ctx.cov.setdefault("cases_replayed_by_kind", {}).setdefault("sync-behaviours", 0)
+        ctx.cov["cases_replayed_by_kind"]["sync-behaviours"] += summ["cases"]
     for k, v in summ.get("by_kind", {}).items():
         ctx.cov.setdefault("cases_replayed_by_kind", {}).setdefault(k, 0)
         ctx.cov["cases_replayed_by_kind"][k] += v
@@ -112,7 +137,10 @@ def run(ctx):
     ]
     if ctx.replay:
         rec = ctx.read_ndjson(ctx.replay)[0]
-        replay(ctx, [rec["case"]["case"]], "replay")
+        if rec["case"].get("kind") == "sync":
+            replay(ctx, [rec["case"]["case"]], "replay", pkg="proxy/server", harness=SYNC_HARNESS, run="^TestVerifConfigSync$")
+        else:
+            replay(ctx, [rec["case"]["case"]], "replay")
         return
 
     # 1. TLC decides the three properties on the specification
@@ -167,7 +195,52 @@ def run(ctx):
                        "('..', '.', empty, over-long, forbidden character), a configuration with a non-plain field, or any ciphertext class; counted over the replayed cases")
     replay(ctx, cases, "enumerated cases")
 
-    # 3. binding self-test: a corrupted expected location must be noticed
+    # 3. the proxy side: coordinator -> SyncNamespaces -> local copy -> load from the local copy alone (ConfigSync)
+    classes = ["plain", "len16", "nonutf8", "quote"] if not thorough else ["plain", "len15", "len16", "len17", "nonutf8", "quote", "long", "empty"]
+    r = ctx.tlc("ConfigSync", "sync.cfg", timeout=900, coverage=True,
+                extra_files={"sync.cfg": SYNC_CFG % dict(spec="SSpec", classes=K.tla_set(classes), maxver=3 if not thorough else 4, extra="",
+                                                         inv="LoadRoundTrip LocalIsCopy LocalNotNewer")},
+                label="save / sync / load-local / load-coordinator, all sequences")
+    ctx.log("mc ConfigSync", r.stats())
+    if r.zero_actions:
+        ctx.notes.append("vacuous actions in ConfigSync: %s" % r.zero_actions)
+    r = ctx.tlc("ConfigSync_gen", "syncgen.cfg", workers=1, timeout=900,
+                extra_files={"syncgen.cfg": SYNC_CFG % dict(spec="GSpec", classes=K.tla_set(["plain", "len16", "nonutf8", "quote"]), maxver=3,
+                                                            extra="  GenLen = %d" % (3 if not thorough else 4), inv="Emit LoadRoundTrip")},
+                label="sync behaviours")
+    behs = r.cases
+    if not behs:
+        raise vlib.Inconclusive("no sync behaviours generated")
+
+    def local_after_sync(c):
+        seen = False
+        for e in c["events"]:
+            if e["act"] == "sync":
+                seen = True
+            elif e["act"] == "loadlocal" and seen and e["st"] == "data":
+                return True
+        return False
+    must = [c for c in behs if local_after_sync(c)]
+    rest = [c for c in behs if not local_after_sync(c)]
+    if thorough:
+        must = rng.sample(must, min(len(must), 2500))
+    sel = must + rng.sample(rest, min(len(rest), 150 if not thorough else 1500))
+    sel = [copy.deepcopy(c["case"]) for c in K.stored_finding_cases("C33", "sync")] + sel
+    ctx.cov["sync_behaviours"] = {"generated": len(behs), "replayed": len(sel), "with_load_from_the_local_copy_after_a_sync": len(must)}
+    ctx.cov["distinct_nontrivial"] += len(must)
+    ctx.cov["rule"] += "; sync behaviours: non-trivial = a load from the local copy alone, with the saving key, after a sync"
+    ctx.sample(must[0])
+    res, summ, out = ctx.harness("proxy/server", SYNC_HARNESS, "^TestVerifConfigSync$", [dict(c, seed=ctx.seed) for c in sel],
+                                 env={"VERIF_SCRATCH": ctx.path("sandbox")}, timeout=2400)
+    K.require_counts(summ, len(sel), "sync behaviours")
+    K.report(ctx, res, wrap=lambda obs: {"kind": "sync", "case": obs})
+    ctx.cov["evaluations"] += summ["cases"]
+    ctx.cov["traces_validated_against_impl"] += summ["cases"]
+    ctx.cov["operations_on_real_code"] += summ["operations"]
+    ctx.cov.setdefault("cases_replayed_by_kind", {})["sync-behaviours"] = summ["cases"]
+    K.drift_note(ctx, summ, "sync behaviours")
+
+    # 4. binding self-test: a corrupted expected location must be noticed
     bad = copy.deepcopy(next(c for c in inside if c["expect"]["loc"]["ok"]))
     bad["expect"]["loc"]["base"] = "somewhere_else"
     sub = K.sub_ctx(ctx)
